@@ -132,6 +132,69 @@ Section Static.
   Definition moved_key (R D ix n : N) (o : oid) : path :=
     qname_f (moved_name D ix n) (moved_parent R D ix) depth_fuel o.
 
+  (* ---- the alias map that the import statements of a module write, read off the text ----
+     (local `modname` of visit_ImportFrom, _localNameToFullName_map) after a list of micro-operations of module m *)
+  Definition alias_op (m : N) (st : option path * list (N * path)) (op : mop) : option path * list (N * path) :=
+    match op with
+    | MResolve level modname => (static_modname m level modname, snd st)
+    | MImportName orgname asname =>
+      match fst st with
+      | Some t => (fst st, nset asname (t ++ [orgname]) (snd st))
+      | None => st
+      end
+    | MStmt _ (SImport target asname) =>
+      if N.eqb asname 0 then (fst st, nset (hd 0 target) [hd 0 target] (snd st))
+      else (fst st, nset asname target (snd st))
+    | _ => st
+    end.
+  Definition alias_ops (m : N) (ops : list mop) : option path * list (N * path) :=
+    fold_left (alias_op m) ops (None, []).
+  Definition static_alias (m : N) : list (N * path) :=
+    match modinfo_of p m with
+    | Some mi => snd (alias_ops m (expand_stmts (m_stmts mi)))
+    | None => []
+    end.
+
+  (* statements whose effect on the alias map is a function of the text: no star import, no `name = dotted.name` *)
+  Definition plain_stmt (st : stmt) : bool :=
+    match st with
+    | SImportStar _ _ | SAlias _ _ => false
+    | SImport [] _ => false                       (* `import <nothing>` is not Python *)
+    | _ => true
+    end.
+  Definition plain_imports : Prop :=
+    forall m mi st, modinfo_of p m = Some mi -> In st (m_stmts mi) -> plain_stmt st = true.
+
+  (* names that the definitions of module m bind, and the names of its sub-modules *)
+  Definition def_name (st : stmt) : list N :=
+    match st with SClass n _ _ _ | SFunc n _ | SVar n _ => [n] | _ => [] end.
+  Definition def_names (mi : modinfo) : list N := flat_map def_name (m_stmts mi).
+  Definition submodule_names (m : N) : list N :=
+    flat_map (fun mi' => match m_parent mi' with Some q => if N.eqb q m then [m_name mi'] else [] | None => [] end) p.
+  Definition root_names : list N :=
+    flat_map (fun mi' => match m_parent mi' with None => [m_name mi'] | Some _ => [] end) p.
+
+  (* the names that the import statements of a module bind, in order, with repetitions *)
+  Definition op_import_name (op : mop) : list N :=
+    match op with
+    | MImportName _ asname => [asname]
+    | MStmt _ (SImport target asname) => [if N.eqb asname 0 then hd 0 target else asname]
+    | _ => []
+    end.
+  Definition import_names (mi : modinfo) : list N := flat_map op_import_name (expand_stmts (m_stmts mi)).
+
+  (* "each name is bound once per scope", for imports: the names a module binds by import are pairwise distinct and
+     distinct from the names it defines and from the names of its sub-modules *)
+  Definition bind_once : Prop :=
+    forall m mi, modinfo_of p m = Some mi ->
+      NoDup (import_names mi) /\
+      (forall a, In a (import_names mi) -> ~ In a (def_names mi) /\ ~ In a (submodule_names m)).
+
+  (* a module does not re-bind the name of a top-level module of the project to something else *)
+  Definition no_shadow_roots : Prop :=
+    forall m mi r, modinfo_of p m = Some mi -> In r root_names ->
+      ~ In r (def_names mi) /\ (forall q, In (r, q) (static_alias m) -> q = [r]).
+
   (* a schedule: the order of System.unprocessed_modules, a permutation of the module indices *)
   Definition module_ids : list N := map N.of_nat (seq 0 (length p)).
 End Static.
